@@ -25,6 +25,7 @@ def run(rep, tier):
     rep.rule('R02.4', 'only active states are exited: what enters the exit set derives from iterating the configuration (large) or the exit set is intersected with the configuration before it is used (fast)')
     rep.rule('R02.5', 'the root is never exited: exit intervals are applied only under the emptiness test (same instances as C01 R01.5)')
     rep.rule('R02.6', 'completion dispatch is exhaustive: the switch over the state kind in descendant completion has an arm for every kind code the engine assigns to a state')
+    rep.rule('R02.8', 'pre-emption agrees with the exit sets: overlap tests on the closed exit intervals use non-strict comparisons')
     rep.rule('R02.7', 'history only names simultaneously active states: the history update is conditioned on membership in the configuration and precedes every configuration erase of the step (phase protocol)')
     rep.assume('legality for every chart and history needs the values of the entry set: not decided')
     fb = facts.FactBase(facts.library_tus())
@@ -126,6 +127,13 @@ def run(rep, tier):
         # R02.5
         for n, gd in sk.exit_interval_guards():
             rep.check(gd, 'R02.5', eng + '|exit interval application', locstr(n), 'exit interval applied under the emptiness test: %s' % gd)
+        # R02.8 (shared with C01 R01.8): two transitions whose exit sets intersect are never taken together
+        cmps = sk.interval_comparisons()
+        strict = [(ff, n, op) for ff, n, op in cmps if op in ('<', '>')]
+        for ff, n, op in strict:
+            rep.fail('R02.8', '%s|%s|%s' % (eng, ff.q.split('::')[-1], op), locstr(n), 'exit intervals are closed; the strict %s in this overlap test lets two transitions with touching exit sets fire together (two active children in one compound): %s' % (op, fb.text(n)[:80]))
+        if not strict:
+            rep.ok('R02.8', eng, '%d endpoint comparisons, all non-strict' % len(cmps))
         # R02.6
         assigned = set()
         for ff in fb.funcs.values():
@@ -166,6 +174,22 @@ def run(rep, tier):
                     s.get('ref', {}).get('name') in operands for s in sub(x['c'][1])) and any(s.get('ref', {}).get('name') == '_configuration' for s in sub(x['c'][2]))]
                 mentions = any(g.dominates(x['id'], h['id']) for x in inter) or all(m in ('completion', '_states') for m in operands)
             cond_ok = cond_ok and mentions
+        # what is remembered / forgotten ranges over the history's own completion (all of it, and nothing else)
+        for h in hist:
+            operand = h['c'][1] if h['k'] == 'CXXMemberCallExpr' and len(h.get('c', [])) > 1 else (h['c'][-1] if h.get('c') else h)
+            org = path.origin_members(f, operand, sk.defs)
+            ok_org = 'completion' in org
+            if not ok_org:
+                # scratch member filled from the completion earlier in the same block:  _tmpStates = X.completion; ... &= _configuration
+                for m_ in sorted(org):
+                    for x in f.walk():
+                        if x['k'] in ('CXXOperatorCallExpr', 'BinaryOperator') and x.get('op') == '=' and x['loc'][1] < h['loc'][1] and h['loc'][1] - x['loc'][1] < 15:
+                            lhs = x['c'][1] if x['k'] == 'CXXOperatorCallExpr' else x['c'][0]
+                            rhs = x['c'][2] if x['k'] == 'CXXOperatorCallExpr' and len(x['c']) > 2 else x['c'][-1]
+                            if strip(lhs)['k'] == 'MemberExpr' and strip(lhs)['ref'].get('name') == m_ and 'completion' in path.origin_members(f, rhs, sk.defs) and g.dominates(x['id'], h['id']):
+                                ok_org = True
+                                org = org | {'completion (via %s)' % m_}
+            rep.check(ok_org, 'R02.7', '%s|history operand#%d' % (eng, hist.index(h)), locstr(h), 'the states added to / removed from the remembered history derive from %s (must be the history state\'s completion)' % sorted(org))
         viol, _, _ = sk.phase_protocol()
         before = not any(v.get('event') == 'H' for v in viol)
         rep.check(cond_ok and before, 'R02.7', eng + '|history', locstr(hist[0]), 'history update conditioned on the configuration: %s; recorded before any state is removed: %s' % (cond_ok, before))
